@@ -3,6 +3,12 @@ COMMON_NOTE = ("Trusted: Coq 8.16.1 kernel (vm_compute used, native_compute not)
                "The model is hand-written; its tie to /repo is the correspondence check run by this command on every invocation. ")
 ALL = ["C%02d" % i for i in range(1, 21)]
 CHECKS = [
+    {"property_id": "C17", "design_ref": "DESIGN.md §6 C17",
+     "technique": "Coq proof by induction over error trees (no nesting bound) that Flatten/ErrorCode emit the outermost decoration per field + differential check of the real ErrorCode bytes (exhaustive decorator sequences + random trees) + extracted oracle",
+     "text": "Theorems (coq/Props/C17.v): for every error tree (any nesting/order/repetition of the six decorators and %w wrapping) the emitted field list equals the specification built from 'first decoration met from the outside' "
+             "(severity default ERROR, SQLSTATE default XXUUU, message = error text, H/D/F L R/n exactly when set and non-empty), every field code occurs at most once, the line is decimal text that reads back for every int32, nil gives FATAL/XX000. "
+             "The real wire.ErrorCode is run on every decorator sequence up to depth 4 and thousands of random trees; its bytes must parse under the strict backend grammar, carry exactly the specified fields (oracle) and equal the model's bytes.",
+     "note": COMMON_NOTE + "Error values other than the package's decorators and single-%w wrapping are modelled as base errors."},
     {"property_id": "C20", "design_ref": "DESIGN.md §6 C20",
      "technique": "Coq proof about an executable model of ParseParameters + differential correspondence check against /repo (exhaustive small strings + grammar) + extracted oracle",
      "text": "Theorems (coq/Props/C20.v) prove for every byte string that the modelled ParseParameters performs no out-of-range slice, returns between 0 and 65535 zero OIDs, "
